@@ -68,6 +68,20 @@ func staticScratchBase() string {
 	return os.TempDir()
 }
 
+// pickExistingDir: some sub-directory of the served tree (relative name), "sub" when there is none
+func pickExistingDir(t *staticTree) string {
+	best := ""
+	for _, rel := range t.relOfID {
+		if i := strings.Index(rel, "/"); i > 0 && (best == "" || rel[:i] < best) {
+			best = rel[:i]
+		}
+	}
+	if best == "" {
+		return "sub"
+	}
+	return best
+}
+
 // staticTwinContent: a file of the same SIZE as file `of` (and given the same modification time and base name by the
 // tree builder) but other bytes — two files a cache keyed by name, size and time cannot tell apart
 func staticTwinContent(of int) []byte {
@@ -173,7 +187,7 @@ func execStatic(args []string, lines [][]string) (outs []string) {
 		nextRan bool
 		etags   = map[int]string{}
 	)
-	spy := arg(3) == "1"
+	spy := arg(3) == "1" || arg(3) == "3"
 	if needTree {
 		tree = buildStaticTree(lines)
 		defer os.RemoveAll(tree.base)
@@ -181,6 +195,11 @@ func execStatic(args []string, lines [][]string) (outs []string) {
 		switch {
 		case spy:
 			opts.FileSystem = spyFS{fs: http.Dir(tree.pub), names: &opened}
+			if arg(3) == "3" {
+				// FileSystem AND Directory: the file system given is what is served, as it is (Directory only names the
+				// directory of the default file system)
+				opts.Directory = pickExistingDir(tree)
+			}
 		case arg(3) == "2":
 			// the documented default: no Directory, no FileSystem — "public" under the working directory
 			// (a link to the tree, the working directory moved next to it for the length of the session)
@@ -210,11 +229,16 @@ func execStatic(args []string, lines [][]string) (outs []string) {
 		optSlice[0] = flamego.StaticOptions{Directory: filepath.Join(tree.base, "elsewhere"), Prefix: "/scribbled", Index: "nope.html",
 			FileSystem: http.Dir(filepath.Join(tree.base, "elsewhere"))}
 		f.Use(mw)
-		f.NotFound(func(c flamego.Context) {
+		next := func(c flamego.Context) {
 			nextRan = true
 			c.ResponseWriter().WriteHeader(http.StatusNotFound)
 			_, _ = c.ResponseWriter().Write([]byte("NEXT"))
-		})
+		}
+		f.NotFound(next)
+		// an application route with the anonymous glob next to the global Static: "the rest of the chain" for requests
+		// under /api is this route's handler — it answers exactly like the not-found chain, so the expectations are
+		// the same; what bind parameters the matched route has is none of Static's business
+		f.Get("/api/{**}", next)
 		probe = flamego.NewWithLogger(io.Discard)
 		probe.Use(flamego.Static(flamego.StaticOptions{Directory: tree.pub, SetETag: true}))
 	}
@@ -530,6 +554,8 @@ func genStaticSession(r *rand.Rand, emit Emit, pfx, index string, nreq int, smal
 		spy = 0
 	case 1:
 		spy = 2 // StaticOptions without Directory and FileSystem: the documented default directory
+	case 2:
+		spy = 3 // FileSystem and Directory both given
 	}
 	emit("NEW static %s %s %d %d %d %d", hx(pfx), hx(index), r.Intn(2), spy, r.Intn(2), r.Intn(2))
 	for _, e := range fs {
@@ -598,6 +624,14 @@ func genStaticSession(r *rand.Rand, emit Emit, pfx, index string, nreq int, smal
 		}
 		rec("")
 		return
+	}
+	// below an application route with the anonymous glob (GET /api/{**}): existing files and directories named by the glob
+	for k := 0; k < 4 && len(fs) > 0; k++ {
+		e := fs[r.Intn(len(fs))]
+		if e.rel == "." {
+			continue
+		}
+		emit("REQ %s %s -", hx(pick(r, []string{"GET", "GET", "HEAD"})), hx("/api/"+e.rel))
 	}
 	if twinA != 0 {
 		for _, p := range []string{"/tw1/t.txt", "/tw2/t.txt", "/tw1/t.txt", "/tw2/t.txt"} {
